@@ -35,7 +35,9 @@ def generate(rng, tier):
                 f.write("".join("k=v%d\n" % j for j in range(sz)))
             payloads.append(("cat: %s regex:noop " % path).encode().hex())
         cases.append({"kind": "server", "payloads": payloads, "cat_limit": rng.choice([1, 2, 3]), "private_limiter": True,
-                      "gap_ms": rng.choice([0, 0, 0, 1, 10]), "read_delay_us": rng.choice([0, 0, 200]), "wait_ms": 9000, "_sizes": sizes})
+                      "gap_ms": rng.choice([0, 0, 0, 1, 10]), "read_delay_us": rng.choice([0, 0, 200]),
+                      # an upper bound only (sessions end by themselves): the aggregator handles ~2 700 lines/s when idle
+                      "wait_ms": 20000 + 6 * sum(sizes), "_sizes": sizes})
     for i in range(12 if tier == "quick" else 300):
         cases.append({"kind": "client", "servers": rng.choice([2, 6, 24, 48]), "messages": rng.choice([20, 100, 300]),
                       "reporter_us": rng.choice([0, 10, 50, 500]), "hold_us": 0})
@@ -106,7 +108,15 @@ def classify(case, ob, detail):
     k0 = ob.get("late_from", 0) - 1          # read commands counted before the first shutdown (minus the map command)
     if k0 < 0:
         return None
-    if ob.get("_total", -1) < sum(case["_sizes"][:k0]):
+    # files that were still entering / leaving the limiter after shutdown() had first been entered belong to
+    # commands counted after the counter had returned to 0 (file names end in _<command index>.log)
+    late_idx = set()
+    for p in ob.get("late_files") or []:
+        try:
+            late_idx.add(int(os.path.basename(p).rsplit("_", 1)[1].split(".")[0]))
+        except (ValueError, IndexError):
+            pass
+    if ob.get("_total", -1) < sum(sz for k, sz in enumerate(case["_sizes"][:k0]) if k not in late_idx):
         return None
     return "command_received_after_counter_returned_to_zero"
 
